@@ -131,3 +131,30 @@ Proof.
   split; [exact Hch|exact Hfr].
 Qed.
 Print Assumptions C09_definition_is_balanced.
+
+(* ---- between the trees of a session, in either mode ---- *)
+Require Import Calc.Resolve Calc.StmtRel Calc.StmtMixed Calc.StmtModes.
+
+(* tready: the machine is idle at the end of its code, on the main context, which has no children; its memory
+   holds no activation (m_fp = []) and its stack pointer lies within the stack.  A statement of the fragment —
+   whether it ends with a value or fails anywhere, in a loop body or inside a callee — and a definition leave
+   the machine like that again, in value mode and in file mode: every history of such trees runs at top level
+   with no frame, context or closure residue *)
+Theorem C09_statement_leaves_top_level : forall nostck B t mc c m n G' sres,
+  tready B mc c m -> wstmt t = true -> CompileWf.wfb t = true ->
+  ssem B n (wof (mc_vm mc)) t = Some (G', sres) ->
+  outcome_m nostck mc t G' sres (fun mc' => exists c' m', tready B mc' c' m').
+Proof. exact stmt_step_m. Qed.
+Print Assumptions C09_statement_leaves_top_level.
+
+Theorem C09_definition_leaves_top_level : forall nostck B d mc c m,
+  tready B mc c m -> fdef_ok d -> ncs (mc_cs mc) + 1 < 4294967296 ->
+  snd (run_tree nostck mc (fd_tree d)) = TRefused \/
+  exists c' m',
+    let fv := fd_value mc d in
+    let mc' := fst (run_tree nostck mc (fd_tree d)) in
+    snd (run_tree nostck mc (fd_tree d)) = TValue (def_shown nostck fv) /\
+    wof (mc_vm mc') = wbump (wglob (wof (mc_vm mc)) (sassoc_set (v_globals (mc_vm mc)) (fd_name d) fv)) /\
+    tready (ft_add B (fd_name d) fv (fd_body d) (fd_lc d)) mc' c' m'.
+Proof. exact def_step_m. Qed.
+Print Assumptions C09_definition_leaves_top_level.
